@@ -21,6 +21,7 @@ import (
 	"strconv"
 	"sync/atomic"
 
+	"github.com/nspcc-dev/neo-go/pkg/util"
 	iec "github.com/nspcc-dev/neofs-node/internal/ec"
 	ierrors "github.com/nspcc-dev/neofs-node/internal/errors"
 	meta "github.com/nspcc-dev/neofs-node/pkg/local_object_storage/metabase"
@@ -76,13 +77,13 @@ func mkSplit(n int) *object.SplitID {
 	return object.NewSplitIDFromV2(b)
 }
 
+// the blobs are unmarshalled by the rebuild, which validates the owner's checksum
 var owner = func() user.ID {
-	var u user.ID
-	u[0] = 0x35
-	for i := 1; i < len(u); i++ {
-		u[i] = byte(i)
+	var h util.Uint160
+	for i := range h {
+		h[i] = byte(i + 1)
 	}
-	return u
+	return user.NewFromScriptHash(h)
 }()
 
 type epochState struct{ e atomic.Uint64 }
